@@ -1305,6 +1305,12 @@ pub fn apply_fault(t: &mut SupplyTrace, plan: &Plan, f: F, r: &mut Rng, prefer_s
                 1 => ExitSpec::Signal(9),
                 _ => ExitSpec::NotFound,
             };
+            if r.chance(1, 4) && !lv.subdir.is_empty() {
+                // the empty step sequence: the delegated level has inspections only
+                lv.layout.steps.clear();
+                lv.files.clear();
+                t.labels.push("SUB-STEPLESS".into());
+            }
         }
         F::ExtraStranger => {
             // next to the genuine evidence of a step: one more link for it, validly signed by somebody
